@@ -24,7 +24,7 @@ DECIDING = ["blur_is_centred_convolution", "impulse_response", "mass_scaled", "f
             "dense_builder_is_operator", "csr_builder_is_operator", "restore_linear", "channels_independent", "lambda0_inverts",
             "psf_generator_wellformed", "input_unchanged"]
 MUST_REACH = ["history:same_taps_other_shape", "history:same_kernel_other_image", "history:kernel_updated_in_place", "kernel:smaller_than_image", "kernel:same_size_as_image", "kernel:even", "kernel:asymmetric", "kernel:1x1", "image:non_square", "image:channel_amplitudes_vary",
-              "lambda:zero"]
+              "lambda:zero", "lambda:zero_ill_conditioned"]
 
 C = 1e3
 EPS = float(np.finfo(float).eps)
@@ -56,6 +56,11 @@ def cases(tier, seed):
         for k in range(2 if tier == "quick" else 6):
             out.append({"kind": "img", "cls": "large_or_elongated", "H": H, "W": W, "idx": idx, "seed": seed})
             idx += 1
+    # badly conditioned but invertible blurs (Gaussian as wide as the image): lambda = 0 must still undo them
+    for (H, W) in ([(16, 16), (12, 16), (10, 14), (9, 9), (8, 12)] if tier == "quick" else [(16, 16), (12, 16), (10, 14), (9, 9), (20, 15), (11, 23), (18, 18)]):
+        for k in range(2 if tier == "quick" else 6):
+            out.append({"kind": "img", "cls": "ill_conditioned_blur", "H": H, "W": W, "idx": idx, "seed": seed, "kernel_index": 10})
+            idx += 1
     # call histories inside one process: kernels with identical taps but different shapes (1xL, Lx1, axb), the same kernel on
     # different image sizes, and a kernel updated in place between two calls
     for k in range(12 if tier == "quick" else 80):
@@ -71,8 +76,11 @@ def run_case(spec, ctx, R):
     {"img": _img, "psfgen": _psfgen, "history": _history}[spec["kind"]](spec, ctx, R)
 
 
+_WIDE_SIGMA = {(16, 16): 1.3, (12, 16): 1.5, (10, 14): 1.3, (9, 9): 1.5, (8, 12): 1.7, (20, 15): 1.3, (11, 23): 1.3, (18, 18): 1.2}
+
+
 def _kernel(rng, Q, H, W, idx):
-    kind = ["random", "single_tap", "gaussian", "motion", "full_size", "even", "one", "asym_small", "int_weights", "int_weights_asym"][idx % 10]
+    kind = ["random", "single_tap", "gaussian", "motion", "full_size", "even", "one", "asym_small", "int_weights", "int_weights_asym", "wide_gaussian"][idx % 11]
     if kind == "random":
         kH, kW = int(rng.integers(1, H + 1)), int(rng.integers(1, W + 1))
         psf = rng.random((kH, kW))
@@ -85,6 +93,14 @@ def _kernel(rng, Q, H, W, idx):
         while 2 * rad + 1 > min(H, W):
             rad -= 1
         psf = Q.build_psf_gaussian(max(rad, 0), float(rng.choice([0.5, 1.0, 2.0])))
+    elif kind == "wide_gaussian":
+        # a Gaussian as wide as the image allows: the transfer function gets tiny (1e-4 .. 1e-8 of its maximum) but stays non-zero,
+        # i.e. the blur is invertible and badly conditioned
+        rad = max(0, (min(H, W) - 1) // 2 - int(rng.integers(0, 2)))
+        sg = float(rng.choice([1.0, 1.3, 0.8]))
+        if (H, W) in _WIDE_SIGMA:        # sizes for which a sigma with kappa(A) in 1e6 .. 1e8 is tabulated
+            rad, sg = (min(H, W) - 1) // 2, _WIDE_SIGMA[(H, W)]
+        psf = Q.build_psf_gaussian(rad, sg)
     elif kind == "motion":
         L = int(rng.integers(1, 6))
         while (L if L % 2 else L + 1) > min(H, W):
@@ -140,7 +156,7 @@ def _img(spec, ctx, R):
     Q = R.qslst
     H, W = spec["H"], spec["W"]
     rng = gen.rng_for(spec["seed"], "c17", spec["idx"])
-    psf, kind = _kernel(rng, Q, H, W, spec["idx"])
+    psf, kind = _kernel(rng, Q, H, W, spec["idx"] if "kernel_index" not in spec else spec["kernel_index"])
     kH, kW = psf.shape
     X = _image(rng, H, W, spec["idx"] // 8)
     # per-channel amplitudes: the four channels are convolved independently, so every clause is judged per channel relative to
@@ -276,6 +292,18 @@ def _img(spec, ctx, R):
             Xi = Q.qslst_restore_fft(ref, psf, 0.0)
             ctx.check("lambda0_inverts", float((np.abs(Xi - X) / xch).max()), C * EPS * N * logf * kapT,
                       site="qslst_restore_fft", tags=tags, detail={**det, "kappa_T": kapT})
+    # lambda = 0 inverts the blur WHEREVER it is invertible, also when it is badly conditioned: error governed by kappa(A), not by
+    # kappa(A)^2 (the filter conj(H)/|H|^2 is 1/H), so a kernel with min|H| = 1e-7 max|H| still has to be undone to 1e-6
+    kapA = float(sv[0] / sv[-1]) if sv[-1] > 0 else float("inf")
+    if 1e3 < kapA <= 1e9:
+        ctx.hit("lambda:zero_ill_conditioned")
+        for lm0 in (0.0, 0):
+            try:
+                Xi = Q.qslst_restore_fft(ref, psf, lm0)
+                ctx.check("lambda0_inverts", float((np.abs(Xi - X) / xch).max()), C * EPS * N * logf * kapA, site="qslst_restore_fft:ill_conditioned", tags=tags,
+                          detail={**det, "kappa_A": kapA})
+            except Exception as e:
+                ctx.check("unexpected_exception", False, site="qslst_restore_fft", tags=tags, detail={**det, "lambda": 0, "exception": repr(e)})
     # linearity and channel independence (lambda = lam)
     B2 = amp * rng.standard_normal(Bn.shape)
     al, be = 0.75, -1.5
